@@ -75,7 +75,8 @@ fn label_set(ctx: &mut Ctx, g: &GenSet) -> bool {
         1 => "set:size-1",
         2 => "set:size-2",
         3..=8 => "set:size-3..8",
-        _ => "set:size-9..40",
+        9..=40 => "set:size-9..40",
+        _ => "set:staircase-41..257",
     });
     if g.list.len() > g.set.len() {
         ctx.label("set:list-has-duplicates");
@@ -235,6 +236,9 @@ pub fn case_completeness(bytes: &[u8], ctx: &mut Ctx) -> CaseResult {
                 set_hex(&g.list)
             ),
         };
+        if proof.len() >= 8000 {
+            ctx.label("cmp:honest-proof>=8000-bytes");
+        }
         vensure!(
             inc == member,
             "C12:completeness:generate_proof-wrong-inclusion-flag",
@@ -1150,6 +1154,7 @@ pub fn run_main() {
                     "set:size-1",
                     "set:size-2",
                     "set:size-9..40",
+                    "set:staircase-41..257",
                     "set:list-has-duplicates",
                     "set:shared-prefix=255",
                     "set:collapsed-chain>=100-levels",
@@ -1173,6 +1178,8 @@ pub fn run_main() {
                     "q:random",
                     "cmp:proof-depth>=255",
                     "cmp:honest-proof-vs-neighbour-set-root",
+                    "cmp:honest-proof>=8000-bytes",
+                    "set:staircase-41..257",
                 ],
             },
             SubCheck {
